@@ -34,7 +34,7 @@ def sel_cases():
     for a in COS:
         for b in [None] + COS:
             for mode in ("dbc", "plain"):
-                for split in (0, 1, 2):
+                for split in (0, 1, 2, 3, 4):
                     for with_setattr in (False, True):
                         names = [n for n in NAMES if with_setattr or n != "__setattr__"]
                         if split == 0:
@@ -46,6 +46,16 @@ def sel_cases():
                                        "invs": ([list(b)] if b else []) if split == 1 else [], "init": False}]
                             if split == 2 and b:
                                 levels[0]["invs"].append(list(b))
+                            if split == 3:
+                                # the base relies on object.__init__ (its __new__ is hooked), the derived class has a constructor
+                                levels[0]["init"], levels[1]["init"] = False, True
+                                if b:
+                                    levels[0]["invs"].append(list(b))
+                                levels[1]["invs"] = []
+                            if split == 4:
+                                # no class of the hierarchy defines a constructor
+                                levels[0]["init"] = False
+                                levels[1]["invs"] = [list(b)] if b else []
                         invs = [x for lv in levels for x in lv["invs"]]
                         members = [{"name": n, "kind": KIND[n]} for lv in levels for n in lv["members"]]
                         yield {"dom": "select", "levels": levels, "invs": [{"call": c, "setattr": s} for c, s in invs],
@@ -85,6 +95,12 @@ def _processed(case, name):
     return any(lv[k]["mode"] == "dbc" or lv[k]["invs"] for k in range(j, len(lv)))
 
 
+def _ctor_processed(case):
+    lv = case["levels"]
+    j = max((j for j, l in enumerate(lv) if l.get("init", True)), default=0)
+    return any(lv[k]["mode"] == "dbc" or lv[k]["invs"] for k in range(j, len(lv)))
+
+
 def model_view(case, mo):
     if case["dom"] != "select":
         return _C10.model_view(case, mo)
@@ -113,7 +129,8 @@ def model_view(case, mo):
             ops[n] = sa_ids + sa_ids
     if "__setattr__" not in members:
         ops["assign"] = (sa_assign[1] + sa_assign[1]) if sa_assign[0] == "onSetattr" else []
-    return {"define": ["ok"], "ops": ops, "construct": list(range(len(case["invs"])))}
+    # (a constructor defined by a plain, undecorated subclass is invisible to the library: nothing is evaluated)
+    return {"define": ["ok"], "ops": ops, "construct": list(range(len(case["invs"]))) if _ctor_processed(case) else []}
 
 
 def project(case, obs):
@@ -134,7 +151,9 @@ def spec(case, mo, io):
     call = [i for i, (c, _s) in enumerate(invs) if c]
     sa = [i for i, (_c, s) in enumerate(invs) if s]
     if io["construct"] != list(range(len(invs))):
-        fails.append("after the constructor the invariants evaluated were %s, expected all of %s" % (io["construct"], list(range(len(invs)))))
+        ctor_processed = _ctor_processed(case)
+        fails.append("%safter the constructor the invariants evaluated were %s, expected all of %s"
+                     % ("" if ctor_processed else "PLAIN: constructor of a plain undecorated subclass: ", io["construct"], list(range(len(invs)))))
     members = set(m["name"] for m in case["members"])
     setattr_guarded = bool(sa) and (_processed(case, "__setattr__") if "__setattr__" in members else True)
     for n, got in sorted(io["ops"].items()):
